@@ -371,6 +371,7 @@ impl<'env> Executor<'env> {
                 frame_is_loop: state.ctx.verif_frame_is_loop(),
                 captures: out.verif_capture_depth(),
                 auto_escape_depth: auto_escape_stack.len(),
+                auto_escape_mode: format!("{:?}", state.auto_escape),
                 #[cfg(feature = "fuel")]
                 fuel: crate::vm::fuel::verif_fuel_for_instruction(instr),
                 #[cfg(not(feature = "fuel"))]
@@ -901,6 +902,7 @@ impl<'env> Executor<'env> {
             frames: state.ctx.verif_frame_is_loop().len(),
             captures: out.verif_capture_depth(),
             auto_escape: !matches!(state.auto_escape, AutoEscape::None),
+            auto_escape_mode: format!("{:?}", state.auto_escape),
             auto_escape_depth: auto_escape_stack.len(),
         });
 
